@@ -8,7 +8,6 @@ import (
 	"sort"
 	"strings"
 	"testing"
-	"testing/synctest"
 	"time"
 
 	"github.com/jrhy/mast"
@@ -290,11 +289,13 @@ func RunFaultScenario(t *testing.T, sc *Scenario) (w *World) {
 	}()
 	hang.begin(sc)
 	defer hang.end()
-	synctest.Test(t, func(t *testing.T) {
+	if p := inBubble(t, func(t *testing.T) {
 		w = NewWorld(t, sc)
 		w.installCallbackFaults()
 		w.runFault()
-	})
+	}); p != nil {
+		panic(p)
+	}
 	return w
 }
 
@@ -510,10 +511,6 @@ func (w *World) cursorUnderFault(op *Op, t *Tree, fp faultPoint) {
 		pos = 0
 		return c.Min(ctx)
 	}
-	r = guard(place)
-	if r.bad() {
-		return // placement under fault: position after an error is not specified; covered generically
-	}
 	fired := func() int {
 		f := 0
 		for _, d := range w.disks {
@@ -523,6 +520,33 @@ func (w *World) cursorUnderFault(op *Op, t *Tree, fp faultPoint) {
 			f += v
 		}
 		return f
+	}
+	placeRetried := false
+	r = guard(place)
+	if r.panicked != nil {
+		w.st.Probes["panic-under-fault"]++
+		return
+	}
+	if r.err != nil {
+		if fired() == 0 {
+			return // an error that is not ours
+		}
+		// the placement call itself failed under the fault: the same call on the same cursor must
+		// succeed once the fault has cleared, and the walk from there must be the sorted list's
+		w.st.OracleEvals++
+		w.st.Probes["placement-call-failed-under-fault"]++
+		w.disarm()
+		if r2 := guard(place); r2.bad() {
+			w.fail("retry-after-fault-fails/cur-place-"+op.F+"/"+fp.kind, "cursor placement (%s) returned %v under %s#%d; retried on the same cursor with the fault cleared it fails again: %s", op.F, r.err, fp.kind, fp.idx, r2)
+			return
+		}
+		placeRetried = true
+		k, v, ok := c.Get()
+		wantOK := pos >= 0 && pos < n
+		if ok != wantOK || (ok && w.obsEntry(k, v) != all[pos]) {
+			w.fail("retry-after-fault-wrong-position/cur-place-"+op.F+"/"+fp.kind, "cursor placement (%s) failed under %s#%d and was retried on the same cursor: entry=%v, the sorted list says entry=%v at position %d", op.F, fp.kind, fp.idx, ok, wantOK, pos)
+			return
+		}
 	}
 	for _, mv := range op.S {
 		if pos < 0 || pos >= n {
@@ -566,6 +590,10 @@ func (w *World) cursorUnderFault(op *Op, t *Tree, fp faultPoint) {
 		k, v, ok := c.Get()
 		wantOK := pos >= 0 && pos < n
 		if ok != wantOK || (ok && w.obsEntry(k, v) != all[pos]) {
+			if placeRetried && r.err == nil {
+				w.fail("retry-after-fault-wrong-position/walk-after-retried-cur-place-"+op.F+"/"+fp.kind, "the cursor placement (%s) failed under %s#%d and was retried successfully on the same cursor; a later %s step stands on the wrong entry (position %d of %d)", op.F, fp.kind, fp.idx, what, pos, n)
+				return
+			}
 			if r.err != nil {
 				got := "<no entry>"
 				if ok {
